@@ -280,9 +280,95 @@ impl Space for Bracket {
     }
 }
 
+/// The translate clause on a cell as the READER leaves it: the child of a shared-formula group holds no formula text of
+/// its own after a load (only the text expanded from the group's master), and must translate like any other formula.
+/// One case = 8 formulas, one workbook with 8 sheets: master at C2, child at C3 (= CELL), saved and loaded once.
+const CL_TRANSLATE_LOADED: &str = "translate-loaded-shared-child";
+struct LoadedChild {
+    en: Enumerator,
+}
+impl Space for LoadedChild {
+    fn len(&self) -> u64 {
+        (self.en.len() + PER_CASE - 1) / PER_CASE
+    }
+    fn describe(&self, i: u64) -> Value {
+        let forms: Vec<String> = (i * PER_CASE..((i + 1) * PER_CASE).min(self.en.len())).filter_map(|j| self.en.get(j).and_then(|(_, f)| f).map(|f| render(&f).text)).collect();
+        json!({"kind": "loaded-shared-children", "from": i * PER_CASE, "master_formulas": forms})
+    }
+    fn run(&self, i: u64, sink: &mut Sink) {
+        use umya_spreadsheet::{CellFormula, CellFormulaValues};
+        let forms: Vec<F> = (i * PER_CASE..((i + 1) * PER_CASE).min(self.en.len())).filter_map(|j| self.en.get(j).and_then(|(_, f)| f)).filter(|f| !formula_tags(f).iter().any(|t| *t == "external-ref" || *t == "structured-ref")).collect();
+        if forms.is_empty() {
+            return;
+        }
+        let texts: Vec<String> = forms.iter().map(|f| render(f).text).collect();
+        let loaded = guarded(move || {
+            let mut book = umya_spreadsheet::new_file();
+            for k in 1..texts.len() {
+                let _ = book.new_sheet(format!("G{}", k));
+            }
+            for (k, t) in texts.iter().enumerate() {
+                let ws = book.get_sheet_mut(&k).unwrap();
+                let mut m = CellFormula::default();
+                m.set_formula_type(CellFormulaValues::Shared);
+                m.set_shared_index(0);
+                m.set_text(t.clone());
+                ws.get_cell_mut((CELL.0, CELL.1 - 1)).get_cell_value_mut().set_formula_obj(m);
+                let mut c = CellFormula::default();
+                c.set_formula_type(CellFormulaValues::Shared);
+                c.set_shared_index(0);
+                ws.get_cell_mut(CELL).get_cell_value_mut().set_formula_obj(c);
+            }
+            let mut buf = std::io::Cursor::new(Vec::new());
+            umya_spreadsheet::writer::xlsx::write_writer(&book, &mut buf).map_err(|e| format!("{:?}", e))?;
+            let b2 = umya_spreadsheet::reader::xlsx::read_reader(std::io::Cursor::new(buf.into_inner()), true).map_err(|e| format!("{:?}", e))?;
+            let cells: Vec<umya_spreadsheet::Cell> = (0..texts.len()).map(|k| b2.get_sheet(&k).unwrap().get_cell(CELL).cloned().unwrap_or_default()).collect();
+            Ok::<_, String>(cells)
+        });
+        let cells = match loaded {
+            Ok(Ok(c)) => c,
+            _ => {
+                sink.count("loaded_child_workbook_not_built", 1);
+                return;
+            }
+        };
+        for (f, cell) in forms.iter().zip(cells) {
+            let child = translate_formula(f, 0, 1);
+            let child_r = render(&child);
+            // precondition (C03's business): the loaded child shows the expansion of its master
+            if compare(&child_r, &child_r, cell.get_formula(), "x").is_some() {
+                sink.count("loaded_child_text_differs_from_expansion", 1);
+                continue;
+            }
+            sink.count("loaded_children", 1);
+            for mv in std::iter::once((0i64, 0i64)).chain(moves_for(&child).into_iter().take(6)) {
+                sink.evaluations += 1;
+                let expected = render(&translate_formula(&child, mv.0, mv.1));
+                let case = json!({"master_formula_at_C2": render(f).text, "child_at_C3_after_load": child_r.text, "clause": CL_TRANSLATE_LOADED, "move": [mv.0, mv.1]});
+                let mut c = cell.clone();
+                match guarded(move || {
+                    c.set_coordinate(((CELL.0 as i64 + mv.0) as u32, (CELL.1 as i64 + mv.1) as u32));
+                    c.get_formula().to_string()
+                }) {
+                    Err(msg) => sink.violations.push(Violation::new(CL_TRANSLATE_LOADED, &format!("panic:{}", panic_class(&msg)), &["loaded-shared-child"], case, msg)),
+                    Ok(got) => {
+                        sink.obs(&got);
+                        if let Some(d) = compare(&expected, &child_r, &got, "out-of-grid-not-REF") {
+                            let mut tags = d.tags.clone();
+                            tags.push("loaded-shared-child");
+                            sink.violations.push(Violation::new(CL_TRANSLATE_LOADED, &d.symptom, &tags, case, format!("move {:?}: {}", mv, d.detail)));
+                        }
+                    }
+                }
+            }
+        }
+    }
+}
+
 pub fn space(tier: Tier, id: &str) -> Option<Box<dyn Space>> {
     let deep = tier == Tier::Thorough;
     match id {
+        "loaded-child" => Some(Box::new(LoadedChild { en: main_space(CO, PLAIN, false, core_leaves(CO, PLAIN)) })),
         "main" => Some(Box::new(Main { en: main_space(CO, PLAIN, deep, core_leaves(CO, PLAIN)) })),
         "bracket" => Some(Box::new(Bracket::new(bracket_space(CO, deep)))),
         _ => None,
@@ -339,7 +425,7 @@ fn run(ctx: &Ctx) -> i32 {
     }
     let sections: Vec<Value> = main.summary().into_iter().chain(br.summary()).map(|(n, c)| json!({"section": n, "index_range": c})).collect();
     let only = std::env::var("UV_SPACES").unwrap_or_default(); // development knob: run a subset of the spaces
-    let ids: Vec<&'static str> = ["main", "bracket"].into_iter().filter(|id| only.is_empty() || only.split(',').any(|x| x == *id)).collect();
+    let ids: Vec<&'static str> = ["main", "bracket", "loaded-child"].into_iter().filter(|id| only.is_empty() || only.split(',').any(|x| x == *id)).collect();
     let spaces = ids.iter().map(|id| (*id, space(ctx.tier, id).unwrap())).collect();
     run_e1(
         ctx,
@@ -347,7 +433,7 @@ fn run(ctx: &Ctx) -> i32 {
             spaces,
             cfg: PoolCfg { chunk: if deep { 8 } else { 1 }, case_timeout: std::time::Duration::from_secs(3), keep_per_class: 2, ..Default::default() },
             level: "exploration",
-            rule: "every formula of the harness grammar (AST rendered by the harness) in the sections listed under bounds, index -> formula deterministic, simplest first; each formula is put on cell C3 and sent through (i) set_coordinate(C3) [identity], (ii) Worksheet::insert_new_row(1000,1) on its own sheet [identity], (iii) Spreadsheet::insert_new_row(\"Other\",1,1) on another sheet [identity], (iv) set_coordinate(C3+(dc,dr)) for every move of the move alphabet [translation, expected = AST translation]; result and expectation are compared token by token through the harness's own lexer, only insignificant blank runs dropped. A hang is reported by the pool watchdog (clause terminates). distinct_nontrivial = distinct result texts of the identity paths and of the first four moves. counters: clean|<clause>|<tag> = formulas carrying the tag for which every evaluation of the clause was clean; failing|... likewise".into(),
+            rule: "every formula of the harness grammar (AST rendered by the harness) in the sections listed under bounds, index -> formula deterministic, simplest first; each formula is put on cell C3 and sent through (i) set_coordinate(C3) [identity], (ii) Worksheet::insert_new_row(1000,1) on its own sheet [identity], (iii) Spreadsheet::insert_new_row(\"Other\",1,1) on another sheet [identity], (iv) set_coordinate(C3+(dc,dr)) for every move of the move alphabet [translation, expected = AST translation]; (loaded-child) the formulas of the quick main space as masters of a shared-formula group at C2 whose child C3 is read back from a saved file (the child holds only expanded text) and sent through set_coordinate for the identity and the first 6 moves; result and expectation are compared token by token through the harness's own lexer, only insignificant blank runs dropped. A hang is reported by the pool watchdog (clause terminates). distinct_nontrivial = distinct result texts of the identity paths and of the first four moves. counters: clean|<clause>|<tag> = formulas carrying the tag for which every evaluation of the clause was clean; failing|... likewise".into(),
             alphabets: json!({
                 "leaves_full": full_leaves(CO, PLAIN).iter().map(render_leaf).collect::<Vec<_>>(),
                 "leaves_reduced": reduced_leaves(CO, PLAIN).iter().map(render_leaf).collect::<Vec<_>>(),
